@@ -30,4 +30,4 @@ def handle (s : Sexp) : String :=
       else "bad-command"
   | _ => "bad-command"
 
-def main : IO Unit := run handle
+def main : IO _root_.Unit := run handle
